@@ -415,6 +415,98 @@ func body(c *explore.Chooser) *explore.Case {
 	return cs
 }
 
+// twoBlocks: two rule{} blocks without match/ignore, each carrying a check of the same kind with different
+// parameters. Both blocks apply to every rule, so both checks must be in the result.
+var twoKinds = []struct{ name, reporter, a, b string }{
+	{"label", "rule/label", `label "m_0" {
+    required = true
+  }`, `label "m_1" {
+    required = true
+  }`},
+	{"annotation", "alerts/annotation", `annotation "m_0" {
+    required = true
+  }`, `annotation "m_1" {
+    required = true
+  }`},
+	{"report", "rule/report", `report {
+    comment  = "first block"
+    severity = "info"
+  }`, `report {
+    comment  = "second block"
+    severity = "warning"
+  }`},
+	{"name", "rule/name", `name "a.*" {
+  }`, `name "b.*" {
+  }`},
+	{"for", "rule/for", `for {
+    min = "1m"
+  }`, `for {
+    min = "2m"
+  }`},
+	{"keep_firing_for", "rule/for", `keep_firing_for {
+    max = "1h"
+  }`, `keep_firing_for {
+    max = "2h"
+  }`},
+	{"aggregate", "promql/aggregate", `aggregate ".+" {
+    keep = ["job"]
+  }`, `aggregate ".+" {
+    keep = ["instance"]
+  }`},
+	{"reject", "rule/reject", `reject "bad.*" {
+    label_values = true
+  }`, `reject "worse.*" {
+    label_values = true
+  }`},
+	{"link", "rule/link", `link "https://a/.+" {
+  }`, `link "https://b/.+" {
+  }`},
+	{"range_query", "promql/range_query", `range_query {
+    max = "1h"
+  }`, `range_query {
+    max = "2h"
+  }`},
+}
+
+func twoBlocks(c *explore.Chooser) *explore.Case {
+	k := twoKinds[c.Free(len(twoKinds), "kind")]
+	order := c.Free(2, "order")
+	a, b := k.a, k.b
+	if order == 1 {
+		a, b = b, a
+	}
+	cfgText := "rule {\n  " + a + "\n}\nrule {\n  " + b + "\n}\n"
+	cs := &explore.Case{Input: map[string]any{"config": cfgText}, Key: cfgText, Outcome: "two-blocks"}
+	cfg, err := pipeline.LoadConfig(cfgText)
+	if err != nil {
+		cs.Violate("harness:config-rejected", "generated config was rejected: "+err.Error(), cfgText)
+		return cs
+	}
+	gen := pipeline.Generator(cfg)
+	ctx := context.WithValue(context.Background(), config.CommandKey, config.LintCommand)
+	for ui := range universe {
+		u := universe[ui]
+		if u.kind != "alerting" {
+			continue
+		}
+		e := u.entry
+		e.State = states[0]
+		n := 0
+		var names []string
+		for _, chk := range cfg.GetChecksForEntry(ctx, gen, e) {
+			if chk.Reporter() == k.reporter {
+				n++
+				names = append(names, chk.String())
+			}
+		}
+		if n != 2 {
+			cs.Violate("two-blocks: a block's check is not applied kind="+k.name, fmt.Sprintf("both rule{} blocks apply to alert %q but only these %s checks are selected: %v", u.name, k.reporter, names), map[string]any{"config": cfgText})
+		}
+		break
+	}
+	return cs
+}
+
 func kindsOf(m, i []sub) string {
 	var ks []string
 	for _, s := range m {
@@ -435,9 +527,12 @@ var tier string
 func main() {
 	explore.Main(&explore.Config{
 		Property: "C09", Level: "exploration",
-		Rule: "rule{} blocks of shape {none, m, i, mm, mi, ii, mmi} whose sub-blocks are conjunctions of <=c conditions (quick: c=2 for single sub-blocks, 1 in pairs; thorough: 3 single, 2 in pairs, 1 in the mmi triple) over a 36-condition alphabet covering all nine kinds (anchoring probes, group-level labels, 7 duration operators, 3 commands, 7 state lists), loaded through the real config.Load, applied through GetChecksForEntry to a rule universe (80 rules quick / 276 thorough: kinds x names x group-level/rule-level/overriding labels x annotations x for x keep_firing_for x 2 paths) x 4 change states x 3 commands, compared with a reference evaluator of the documented meaning. distinct = distinct config text",
+		Rule:        "rule{} blocks of shape {none, m, i, mm, mi, ii, mmi} whose sub-blocks are conjunctions of <=c conditions (quick: c=2 for single sub-blocks, 1 in pairs; thorough: 3 single, 2 in pairs, 1 in the mmi triple) over a 36-condition alphabet covering all nine kinds (anchoring probes, group-level labels, 7 duration operators, 3 commands, 7 state lists), loaded through the real config.Load, applied through GetChecksForEntry to a rule universe (80 rules quick / 276 thorough: kinds x names x group-level/rule-level/overriding labels x annotations x for x keep_firing_for x 2 paths) x 4 change states x 3 commands, compared with a reference evaluator of the documented meaning. distinct = distinct config text; space two-blocks: two unconditional rule{} blocks carrying the same kind of check with different parameters (10 kinds x 2 orders): both checks must be selected",
 		Assumptions: []string{"a block 'is applied' when its marker check is in GetChecksForEntry's result", "removed rules are outside (no configurable check runs on them)"},
-		Spaces: []*explore.Space{{Name: "blocks", Body: body, Setup: func(t string) { tier = t; setup(t) }, Bound: func(string) int { return -1 }}},
+		Spaces: []*explore.Space{
+			{Name: "blocks", Body: body, Setup: func(t string) { tier = t; setup(t) }, Bound: func(string) int { return -1 }},
+			{Name: "two-blocks", Body: twoBlocks, Setup: func(t string) { tier = t; setup(t) }, Bound: func(string) int { return -1 }},
+		},
 		BudgetS: func(t string) int {
 			if t == "thorough" {
 				return 1800
